@@ -31,6 +31,7 @@ def step (_ : Unit) (ws : List String) : Unit × String :=
   | "login" :: _ => ((), "ok")
   | ["endpoints"] => ((), "endpoints **")
   | "call" :: _ => ((), "*")
+  | "import" :: _ => ((), "status * *")
   | _ => ((), "bad-op")
 
 structure SpecSt where
@@ -82,6 +83,15 @@ def specStep (s : SpecSt) (ws : List String) : SpecSt × String :=
       (match s.users.find? (·.1 == name) with
        | some (_, st) => ({ s0 with sessions := (kv rest "as", st) :: s.sessions.filter (·.1 != kv rest "as") }, "spec ok")
        | none => (s0, "-"))
+    | "import" :: _ :: rest =>
+      -- the archive upload: wherever the imported configuration has appeared, the user's privilege must permit that namespace
+      (match s.sessions.find? (·.1 == kv rest "session"), ans with
+       | some (_, st), ["status", _, w] =>
+         let ms := let v := (w.drop 8).toString; if v == "-" then [] else v.splitOn ","
+         (match ms.find? (fun m => !(build st).check (markerNs m)) with
+          | some m => (s0, s!"spec FAIL an import by the restricted user wrote into namespace '{m}', which the user's privilege excludes")
+          | none => (s0, "spec ok"))
+       | _, _ => (s0, "-"))
     | "call" :: ep :: rest =>
       match s.sessions.find? (·.1 == kv rest "session") with
       | none => (s0, "-")
